@@ -129,3 +129,13 @@ Definition oql_eqb (a : option (list Q)) (e : option (list Z)) : bool :=
   match a, e with Some l, Some l' => ql_eqb l l' | None, None => true | _, _ => false end.
 Definition ozl_eqb (a e : option (list Z)) : bool := option_eqb zl_eqb a e.
 Definition ool_eqb (a e : option (list (option Z))) : bool := option_eqb ol_eqb a e.
+
+(* ---------------------------------------------------------------- pooling as window extraction (F.unfold) followed by max / mean (C14) *)
+Definition run_maxpool_via_unfold g (x : list Z) : list (option Z) :=
+  let xf := of4 (gC g) (gH g) (gW g) x in
+  map (fun q => let '(n, c, wi, wj) := q in
+         ext_code (lmax (map (fun t => ecell xf (fast_unf g (n, c * (kH g * kW g) + t, wi * oW g + wj))) (zr (kH g * kW g))))) (Jout2 g).
+Definition run_avgpool_via_unfold g (x : list Z) : list Q :=
+  let xf := qof4 (gC g) (gH g) (gW g) (injl x) in
+  map (fun q => let '(n, c, wi, wj) := q in
+         sdiv (isum (zr (kH g * kW g)) (fun t => unfold_fwd g 0%Q xf (n, c * (kH g * kW g) + t, wi * oW g + wj))) (kH g * kW g)) (Jout2 g).
